@@ -256,47 +256,54 @@ theorem MOK.init {m : Meta} {hm bl : Bool} {n : Nat} (h : MOK m hm bl n) :
 
 /-! ### The invariant with `Weak` pointers in flight -/
 
-/-- `WeakOk` (without the stack clause) with some extra `Weak` pointers in flight. -/
-structure WeakH (w : World) (E : List Id) : Prop where
+/-- `WeakOk` (without the stack clause) with some extra `Weak` pointers in flight. With `ex = true` it also carries the
+upper bound: the weak count *equals* the number of `Weak` pointers (no pointer has been leaked so far). -/
+structure WeakH (ex : Bool) (w : World) (E : List Id) : Prop where
   ok : ∀ x, MOK (w.metas x) (w.heap x).hasMeta (w.heap x).boxLive (wrefs w x + E.count x)
   fresh : ∀ x, w.next ≤ x → (w.metas x).weak = 0
+  ge : ex = true → ∀ x, (w.metas x).weak ≤ wrefs w x + E.count x
 
-theorem WeakOk.toH {w : World} (h : WeakOk w) : WeakH w [] :=
-  ⟨fun x => ⟨by simpa using h.le x, h.wlive x, h.rel x, h.acc x, h.box x, h.nometa x⟩, h.fresh⟩
+variable {ex : Bool}
 
-theorem WeakH.toOk {w : World} {E : List Id} (h : WeakH w E) (hs : wcOk w.stack) : WeakOk w :=
+theorem WeakOk.toH {w : World} (h : WeakOk w) : WeakH false w [] :=
+  ⟨fun x => ⟨by simpa using h.le x, h.wlive x, h.rel x, h.acc x, h.box x, h.nometa x⟩, h.fresh, fun e => nomatch e⟩
+
+theorem WeakH.toOk {w : World} {E : List Id} (h : WeakH ex w E) (hs : wcOk w.stack) : WeakOk w :=
   ⟨fun x => by have := (h.ok x).le; omega,
    fun x hp => (h.ok x).live_of_pos (by omega),
    fun x => (h.ok x).wl, fun x => (h.ok x).rel, fun x => (h.ok x).acc, fun x => (h.ok x).box, fun x => (h.ok x).nm, h.fresh, hs⟩
 
-theorem WeakH.lt_of_pos {w : World} {E : List Id} (h : WeakH w E) {x : Id} (hp : 0 < wrefs w x + E.count x) : x < w.next := by
+theorem WeakH.weaken {w : World} {E : List Id} (h : WeakH ex w E) : WeakH false w E := ⟨h.ok, h.fresh, fun e => nomatch e⟩
+
+theorem WeakH.lt_of_pos {w : World} {E : List Id} (h : WeakH ex w E) {x : Id} (hp : 0 < wrefs w x + E.count x) : x < w.next := by
   cases Nat.lt_or_ge x w.next with
   | inl hlt => exact hlt
   | inr hge => have := h.fresh x hge; have := (h.ok x).le; omega
 
-theorem WeakH.live_of_pos {w : World} {E : List Id} (h : WeakH w E) {x : Id} (hp : 0 < wrefs w x + E.count x) :
+theorem WeakH.live_of_pos {w : World} {E : List Id} (h : WeakH ex w E) {x : Id} (hp : 0 < wrefs w x + E.count x) :
     (w.metas x).live = true := (h.ok x).live_of_pos hp
 
-/-- Leaking pointers in flight keeps the invariant. -/
-theorem WeakH.forget {w : World} {E E' : List Id} (h : WeakH w E) (hc : ∀ x, E'.count x ≤ E.count x) : WeakH w E' :=
-  ⟨fun x => (h.ok x).mono (by have := hc x; omega), h.fresh⟩
+/-- Leaking pointers in flight keeps the invariant (but not exactness). -/
+theorem WeakH.forget {w : World} {E E' : List Id} (h : WeakH ex w E) (hc : ∀ x, E'.count x ≤ E.count x) : WeakH false w E' :=
+  ⟨fun x => (h.ok x).mono (by have := hc x; omega), h.fresh, fun e => nomatch e⟩
 
-theorem WeakH.of_count {w : World} {E E' : List Id} (h : WeakH w E) (hc : ∀ x, E'.count x = E.count x) : WeakH w E' :=
-  h.forget (fun x => Nat.le_of_eq (hc x))
+theorem WeakH.of_count {w : World} {E E' : List Id} (h : WeakH ex w E) (hc : ∀ x, E'.count x = E.count x) : WeakH ex w E' :=
+  ⟨fun x => (h.ok x).mono (by have := hc x; omega), h.fresh, fun e x => by have := h.ge e x; have := hc x; omega⟩
 
 /-- A step that reads or writes nothing the invariant looks at (allocated part of the heap: `wslots`, `hasMeta`;
 `boxLive` may only go away). -/
-theorem WeakH.neutral {w w' : World} {E : List Id} (h : WeakH w E) (hW : w'.W = w.W) (hs : w'.wstash = w.wstash) (hK : w'.K = w.K)
+theorem WeakH.neutral {w w' : World} {E : List Id} (h : WeakH ex w E) (hW : w'.W = w.W) (hs : w'.wstash = w.wstash) (hK : w'.K = w.K)
     (hm : w'.metas = w.metas) (hn : w'.next = w.next) (hc : cycs w'.stack = cycs w.stack)
     (hws : ∀ u, (w'.heap u).wslots = (w.heap u).wslots) (hhm : ∀ u, (w'.heap u).hasMeta = (w.heap u).hasMeta)
-    (hbl : ∀ u, (w'.heap u).boxLive = (w.heap u).boxLive) : WeakH w' E := by
-  refine ⟨fun x => ?_, fun x hx => ?_⟩
+    (hbl : ∀ u, (w'.heap u).boxLive = (w.heap u).boxLive) : WeakH ex w' E := by
+  refine ⟨fun x => ?_, fun x hx => ?_, fun e x => ?_⟩
   · rw [wrefs_congr w w' x hW hs hK hc hn (fun u _ => hws u), hm, hhm, hbl]; exact h.ok x
   · rw [hm]; exact h.fresh x (by rw [← hn]; exact hx)
+  · rw [wrefs_congr w w' x hW hs hK hc hn (fun u _ => hws u), hm]; exact h.ge e x
 
 /-- Popping the top frame: the closure's `Weak` held by a `newCyclicEnd` frame is in flight. -/
 theorem WeakOk.pop {w : World} (h : WeakOk w) {f : Frame} {rest : List Frame} (hs : w.stack = f :: rest) :
-    WeakH { w with stack := rest } f.cyc ∧ wcOk rest := by
+    WeakH false { w with stack := rest } f.cyc ∧ wcOk rest := by
   have hr : ∀ x, wrefs w x = wrefs { w with stack := rest } x + f.cyc.count x := by
     intro x
     unfold wrefs
@@ -304,29 +311,54 @@ theorem WeakOk.pop {w : World} (h : WeakOk w) {f : Frame} {rest : List Frame} (h
     rw [hf, hs, cycs_cons, List.count_append]
     show _ = (wIds w.W).count x + w.wstash x + wfieldRefs w x + (kIds w.K).count x + (cycs rest).count x + _
     omega
-  refine ⟨⟨fun x => ?_, h.fresh⟩, ?_⟩
+  refine ⟨⟨fun x => ?_, h.fresh, fun e => nomatch e⟩, ?_⟩
   · have := h.toH.ok x
     rw [hr] at this
     simpa using this
   · have := h.wcs; rw [hs] at this; exact this.2
 
+/-- The same for a world known to be exact. -/
+theorem WeakH.pop {w : World} (h : WeakH ex w []) {f : Frame} {rest : List Frame} (hs : w.stack = f :: rest) :
+    WeakH ex { w with stack := rest } f.cyc := by
+  have hr : ∀ x, wrefs w x = wrefs { w with stack := rest } x + f.cyc.count x := by
+    intro x
+    unfold wrefs
+    have hf : wfieldRefs { w with stack := rest } x = wfieldRefs w x := rfl
+    rw [hf, hs, cycs_cons, List.count_append]
+    show _ = (wIds w.W).count x + w.wstash x + wfieldRefs w x + (kIds w.K).count x + (cycs rest).count x + _
+    omega
+  refine ⟨fun x => ?_, h.fresh, fun e x => ?_⟩
+  · have := h.ok x
+    rw [hr] at this
+    simpa using this
+  · have := h.ge e x
+    rw [hr] at this
+    simpa using this
+
 /-- Pushing a frame: the `Weak` it holds leaves the in-flight list. -/
-theorem WeakH.pushFrame {w : World} {E : List Id} (f : Frame) (h : WeakH w (f.cyc ++ E)) : WeakH (w.push f) E := by
-  refine ⟨fun x => ?_, h.fresh⟩
-  have := h.ok x
-  rw [wrefs_push]
-  simp only [List.count_append] at this
-  have e : wrefs w x + f.cyc.count x + E.count x = wrefs w x + (f.cyc.count x + E.count x) := by omega
-  rw [e]; exact this
+theorem WeakH.pushFrame {w : World} {E : List Id} (f : Frame) (h : WeakH ex w (f.cyc ++ E)) : WeakH ex (w.push f) E := by
+  have e : ∀ x, wrefs w x + f.cyc.count x + E.count x = wrefs w x + (f.cyc.count x + E.count x) := by intro x; omega
+  refine ⟨fun x => ?_, h.fresh, fun he x => ?_⟩
+  · have := h.ok x
+    rw [wrefs_push]
+    simp only [List.count_append] at this
+    rw [e]; exact this
+  · have := h.ge he x
+    rw [wrefs_push]
+    simp only [List.count_append] at this
+    show (w.metas x).weak ≤ _
+    rw [e]; exact this
 
 /-- Generic update of one side record. -/
-theorem WeakH.updMeta {w : World} {E E' : List Id} (h : WeakH w E) (y : Id) (F : Meta → Meta)
+theorem WeakH.updMeta {w : World} {E E' : List Id} (h : WeakH ex w E) (y : Id) (F : Meta → Meta)
     (hy : MOK (F (w.metas y)) (w.heap y).hasMeta (w.heap y).boxLive (wrefs w y + E'.count y))
     (hE : ∀ x, x ≠ y → E'.count x ≤ E.count x)
-    (hf : w.next ≤ y → (F (w.metas y)).weak = 0) : WeakH (w.updMeta y F) E' := by
-  refine ⟨fun x => ?_, fun x hx => ?_⟩
-  · have hw : wrefs (w.updMeta y F) x = wrefs w x := rfl
-    rw [hw]
+    (hf : w.next ≤ y → (F (w.metas y)).weak = 0)
+    (hgy : ex = true → (F (w.metas y)).weak ≤ wrefs w y + E'.count y)
+    (hgE : ex = true → ∀ x, x ≠ y → E'.count x = E.count x) : WeakH ex (w.updMeta y F) E' := by
+  have hw : ∀ x, wrefs (w.updMeta y F) x = wrefs w x := fun _ => rfl
+  refine ⟨fun x => ?_, fun x hx => ?_, fun e x => ?_⟩
+  · rw [hw]
     by_cases hxy : x = y
     · subst hxy
       rw [updMeta_metas_same]; exact hy
@@ -336,5 +368,11 @@ theorem WeakH.updMeta {w : World} {E E' : List Id} (h : WeakH w E) (y : Id) (F :
     · subst hxy
       rw [updMeta_metas_same]; exact hf hx
     · rw [updMeta_metas_other w y x F hxy]; exact h.fresh x hx
+  · rw [hw]
+    by_cases hxy : x = y
+    · subst hxy
+      rw [updMeta_metas_same]; exact hgy e
+    · rw [updMeta_metas_other w y x F hxy]
+      have := h.ge e x; have := hgE e x hxy; omega
 
 end RustCc
